@@ -43,8 +43,9 @@ func c10(cx *Ctx, r *ev.Report) {
 	ruleG := "NO-HIDDEN-STATE(globals): no function of package z80 other than package initialisation stores to a package-level variable (R-WRITERS on globals, all functions, reachable or not)"
 	all := allFunctions(cx.P)
 	var zf []*ssa.Function
+	initFns := rules.InitClosure(all)
 	for f := range all {
-		if load.InModule(f) && pkgPathOf(f) == load.ModulePath && f.Name() != "init" && !strings.HasPrefix(f.Name(), "init#") {
+		if load.InModule(f) && pkgPathOf(f) == load.ModulePath && !initFns[f] {
 			zf = append(zf, f)
 		}
 	}
@@ -92,7 +93,7 @@ func c10(cx *Ctx, r *ev.Report) {
 	r.Analysed["stores_below_step_and_run"] = eff.Stores
 	r.Analysed["functions_below_step_and_run"] = len(fns)
 	r.Analysed["globals_read_below_step_and_run"] = eff.GlobalReads
-	r.AddFloor("stores_below_step_and_run", eff.Stores, 300)
+	r.AddFloor("stores_below_step_and_run", eff.Stores, 50)
 
 	// 3. external calls: whitelist with reasons
 	allowed := map[string]string{
@@ -119,7 +120,7 @@ func c10(cx *Ctx, r *ev.Report) {
 			}
 		}
 		if strings.HasPrefix(name, "sync/atomic.") || strings.HasPrefix(name, "(*sync/atomic.") || strings.HasPrefix(name, "math/bits.") ||
-			absint.PureLibrary(name) || strings.HasPrefix(name, "log.Print") || strings.HasPrefix(name, "context.With") {
+			absint.PureLibrary(name) || strings.HasPrefix(name, "log.Print") || strings.HasPrefix(name, "context.With") || name == "context.AfterFunc" {
 			ok = true
 		}
 		if !ok {
@@ -153,8 +154,12 @@ func c10(cx *Ctx, r *ev.Report) {
 						det = append(det, cx.P.Pos(in.Pos())+": range over a map below Step/Run (iteration order is not deterministic)")
 					}
 				}
-				if _, ok := in.(*ssa.Select); ok {
-					det = append(det, cx.P.Pos(in.Pos())+": select below Step/Run")
+				if sel, ok := in.(*ssa.Select); ok {
+					// a non-blocking poll of one channel has one outcome per channel state; a
+					// select over several ready channels picks at random
+					if sel.Blocking || len(sel.States) > 1 {
+						det = append(det, cx.P.Pos(in.Pos())+": select over several channels (or blocking) below Step/Run")
+					}
 				}
 			}
 		}
